@@ -42,7 +42,8 @@ pub open spec fn resp_shape(resp: NameserverResponse, q: Question) -> bool {
     match resp {
         // typed_ok: proved in upstream_filter (response_ok: every record is of the asked type at the final name or an on-path CNAME)
         NameserverResponse::Answer { rrs, .. } => typed_ok(rrs@, q.qtype) && (q.qtype != QueryType::Wildcard ==> chain_ok(rrs@, q.name)),
-        NameserverResponse::CNAME { rrs, cname } => typed_ok(rrs@, q.qtype) && (q.qtype != QueryType::Wildcard ==> rrs@.len() > 0 && chain_k(rrs@, q.name, rrs@.len() as int) && ends_at(rrs@, cname)),
+        NameserverResponse::CNAME { rrs, cname } => rrs@.len() > 0 && rrs@[0].rtype_with_data is CNAME // upstream_filter: response_ok (all_aliases)
+            && typed_ok(rrs@, q.qtype) && (q.qtype != QueryType::Wildcard ==> rrs@.len() > 0 && chain_k(rrs@, q.name, rrs@.len() as int) && ends_at(rrs@, cname)),
         NameserverResponse::Delegation { rrs, delegation } => is_suffix(delegation.name.labels@, q.name.labels@),
     }
 }
@@ -108,8 +109,9 @@ SPECS = {
             (rrs@.len() == 0 ==> chain_ok(resolved_rrs(r->Ok_0), question.name))
             && (forall|q0: DomainName| rrs@.len() > 0 && #[trigger] chain_k(rrs@, q0, rrs@.len() as int) && ends_at(rrs@, question.name) ==> chain_ok(resolved_rrs(r->Ok_0), q0)), // [C10:aliases_first_then_the_resolution_of_their_target]
         r is Ok && typed_ok(rrs@, question.qtype) ==> typed_ok(resolved_rrs(r->Ok_0), question.qtype), // [C10:only_aliases_and_records_of_the_asked_type]
+        r is Ok && has_any_alias(rrs@) ==> has_any_alias(resolved_rrs(r->Ok_0)),
     decreases ctx_limit(old(context)) - old(context).question_stack@.len(), 1int,""",
-        "entry": L.BU + " broadcast use group_chain, lemma_chain_concat_b, lemma_merged_nil_b, lemma_nil_concat_b, axiom_rr_vec_len, group_typed;"},
+        "entry": L.BU + " broadcast use group_chain, lemma_chain_concat_b, lemma_merged_nil_b, lemma_nil_concat_b, axiom_rr_vec_len, group_typed, group_local_first, group_any_alias;"},
     "resolve_with_nameserver_response": {
         "props": ["C06", "C10"],
         "header_rewrites": [("R32", r"\basync fn\b", "fn")],
@@ -120,8 +122,11 @@ SPECS = {
         r is Err ==> nameserver_response is Delegation && r->Err_0 == nameserver_response->delegation, // [C06:only_a_validated_referral_replaces_the_candidates]
         question.qtype != QueryType::Wildcard && combined_rrs@.len() == 0 && r is Ok && r->Ok_0 is Ok ==> chain_ok(resolved_rrs(r->Ok_0->Ok_0), question.name), // [C10:upstream_answer_in_chain_order_from_the_question_name]
         typed_ok(combined_rrs@, question.qtype) && r is Ok && r->Ok_0 is Ok ==> typed_ok(resolved_rrs(r->Ok_0->Ok_0), question.qtype), // [C10:only_aliases_and_records_of_the_asked_type]
+        // C01: local records handed in keep their place and nothing of their name and type is merged in - unless the reply is an alias
+        forall|z: Seq<ResourceRecord>| #[trigger] local_first(z, combined_rrs@) && r is Ok && r->Ok_0 is Ok ==>
+            local_first(z, resolved_rrs(r->Ok_0->Ok_0)) || has_any_alias(resolved_rrs(r->Ok_0->Ok_0)), // [C01:upstream_records_never_join_local_records_of_their_name_and_type]
     decreases ctx_limit(old(context)) - old(context).question_stack@.len(), 2int,""",
-        "entry": L.BU + " broadcast use group_chain, lemma_chain_concat_b, lemma_merged_nil_b, lemma_nil_concat_b, axiom_rr_vec_len, group_typed; assert(cacheable(response_rrs(nameserver_response)));"},
+        "entry": L.BU + " broadcast use group_chain, lemma_chain_concat_b, lemma_merged_nil_b, lemma_nil_concat_b, axiom_rr_vec_len, group_typed, group_local_first, group_any_alias; assert(cacheable(response_rrs(nameserver_response)));"},
 }
 
 CANDIDATES = {
@@ -165,6 +170,9 @@ RRN = {
         guards_pass(old(context), *question) && zr(old(context), *question) is Some && zr(old(context), *question)->Some_0.1 is Answer && zone_soa_rr(zr(old(context), *question)->Some_0.0) is None
             && question.qtype != QueryType::Wildcard && zr(old(context), *question)->Some_0.1->rrs@.len() > 0 ==>
             r == Ok::<ResolvedRecord, ResolutionError>(ResolvedRecord::NonAuthoritative { rrs: zr(old(context), *question)->Some_0.1->rrs, soa_rr: None }), // [C01:recursive_local_records_returned_exactly]
+        // C01 (every question type): local records come first and nothing of their name and type is added - unless the answer involves an alias
+        guards_pass(old(context), *question) && zr(old(context), *question) is Some && zr(old(context), *question)->Some_0.1 is Answer && zone_soa_rr(zr(old(context), *question)->Some_0.0) is None && r is Ok ==>
+            local_first(zr(old(context), *question)->Some_0.1->rrs@, resolved_rrs(r->Ok_0)) || has_any_alias(resolved_rrs(r->Ok_0)), // [C01:recursive_local_records_first_and_nothing_of_their_name_and_type_added]
         question.qtype != QueryType::Wildcard && r is Ok ==> chain_ok(resolved_rrs(r->Ok_0), question.name), // [C10:recursive_chain_in_order_from_the_question_name]
         r is Ok ==> typed_ok(resolved_rrs(r->Ok_0), question.qtype), // [C10:recursive_answer_holds_only_aliases_and_records_of_the_asked_type]
     decreases ctx_limit(old(context)) - old(context).question_stack@.len(), 0int,""",
@@ -180,6 +188,8 @@ RRN = {
                 && question.qtype != QueryType::Wildcard && zr(old(context), *question)->Some_0.1->rrs@.len() > 0),
             question.qtype != QueryType::Wildcard ==> combined_rrs@.len() == 0,
             typed_ok(combined_rrs@, question.qtype),
+            zr(old(context), *question) is Some && zr(old(context), *question)->Some_0.1 is Answer && zone_soa_rr(zr(old(context), *question)->Some_0.0) is None
+                ==> local_first(zr(old(context), *question)->Some_0.1->rrs@, combined_rrs@), // [C01:local_records_kept_across_referrals]
             match_count <= question.name.labels@.len(), // [C06:referral_depth_never_exceeds_the_question_name]
         decreases question.name.labels@.len() - match_count, phase(resolve_candidates_locally), candidate_hostnames@.len(),
 """, "entry": L.BU + " broadcast use group_chain, lemma_chain_concat_b, lemma_merged_nil_b, lemma_nil_concat_b, axiom_rr_vec_len, axiom_dn_vec_len;"}},
